@@ -10,6 +10,7 @@ import (
 	"bytes"
 	"crypto/md5"
 	"encoding/hex"
+	"flag"
 	"fmt"
 	"net"
 	"sync"
@@ -544,9 +545,15 @@ func genCase(cfg *RunCfg) *caseCfg {
 	return c
 }
 
+var modeFlag = flag.String("mode", "pair", "pair | raw")
+
 func main() {
 	cfg := ParseFlags()
 	Quiet()
+	if *modeFlag == "raw" {
+		runRaw(cfg)
+		return
+	}
 	st := NewStats("C17", cfg)
 	st.Rule = "case = kind {call,push} x body shape {json struct, json raw bytes, protobuf message} x keys {equal, different same length, different any length; 16/24/32 bytes} x X-Secure {absent,true,false,TRUE,1} x X-Accept-Secure {absent,true,false,yes} x handler reply marker {none, EnforceSecure, false, TRUE, true} x handler status {ok, error} x plugin placement {global, route}; distinct by all of these + values; non-trivial = some marker present or keys differ"
 	w := NewCaseWriter(cfg)
